@@ -48,9 +48,13 @@ type pev struct {
 	// reference than one of the same name written in the configuration.
 	env      *tn
 	envNodes map[*tn]bool
-	org      byte // where the setting being evaluated is written: 0 configuration, 'e' environment
-	fromEnv  int  // names of the configuration answered by the environment
-	envRefs  int  // references written in the environment evaluated
+	// settings below the top level of the environment; nestedHits counts the
+	// references written there that get evaluated (shared by the models of one read)
+	envNested  map[*tn]bool
+	nestedHits *int
+	org        byte // where the setting being evaluated is written: 0 configuration, 'e' environment
+	fromEnv    int  // names of the configuration answered by the environment
+	envRefs    int  // references written in the environment evaluated
 	// trace
 	steps     int
 	tooBig    bool
@@ -243,6 +247,9 @@ func (p *pev) evalNode(n *tn, st []string) pval {
 		p.org = 'e'
 	}
 	defer func() { p.org = saved }()
+	if p.nestedHits != nil && p.envNested[n] && n.kind == 'e' && n.ex.HasVar() {
+		*p.nestedHits++
+	}
 	switch n.kind {
 	case 'o', 'l':
 		return pval{node: n, st: st}
